@@ -318,4 +318,26 @@ CHECKS = {
         "note": "Volumes of at most 6x2x9 voxels (small-scope: axis "
                 "permutation, flip and window bugs show there).",
     },
+    "C01": {
+        "engine": "E-INPUT", "level": "exploration",
+        "technique": "bounded exhaustive enumeration, factorised (value "
+                     "mapping product / tiling product / encoding x storage "
+                     "product) vs exact rational value map + index map",
+        "text": "Real NIfTI files are written with nibabel and converted by "
+                "the function under the volume-to-precomputed CLI with the "
+                "CLI's option dict; scale 0 is read back chunk by chunk "
+                "through a fresh accessor + PrecomputedIO. (A) 8 input "
+                "types x 5 header scalings x ignore-scaling x 4 min/max "
+                "settings x 5 target types x full/mmap on a volume of type "
+                "limits, ties and out-of-range values, expected values "
+                "computed in Fractions (dyadic parameters make nibabel's "
+                "float path exact); (B) 66 shapes x 6 chunk sizes x 3-D / "
+                "4-D x2 / x3 / RGB x full/mmap with position-coded voxels "
+                "(index map out[c,z,y,x] = in[x,y,z,c]); (C) raw / "
+                "compressed_segmentation 8^3, 2^3 / JPEG x 4 file layouts + "
+                "3 sharding configurations.",
+        "note": "Volumes of at most 9x4x3 voxels; uint64 targets with "
+                "min/max mapping are compared within one unit of float64 "
+                "precision (documented limitation of the tool).",
+    },
 }
